@@ -196,7 +196,6 @@ def invert(T, k, r):
             if srt.constructor(ci).eq(d) if hasattr(srt.constructor(ci), "eq") else srt.constructor(ci).name() == d.name():
                 acc = srt.accessor(ci, i)
                 return invert(kids[i], k, acc(r))
-        return None
     if d.name() == "denum" and i == 1:
         return invert(kids[1], k, dpos(kids[0], r))
     if d.kind() == z3.Z3_OP_ADD and len(kids) == 2 and z3.is_int(T):
@@ -721,6 +720,8 @@ def _comprehension(X, st, node, gen, kind, itv):
             length = desc.length if desc.length is not None else N.fresh("dlen", z3.IntSort())
             N.add(length >= 0)
             return [Out(N, "next", v=N.alloc(LDict(present, val, length)))]
+        if kind == "gen" and desc.ksort != z3.IntSort():
+            return [Out(N, "next", v=VIter("desc", IterDesc(desc.ksort, desc.length, lambda i: elem(i, 0), guard=desc._guard, ordered=False)))]
         if desc.ksort != z3.IntSort():
             raise Unsupported("list comprehension over unordered collection")
         if kind == "list":
@@ -910,6 +911,20 @@ def collection_equals(X, st, a, b):
             bb = s.forall(k, z3.And(k >= 0, k < la), t, equiv=True, name="list-eq")
             out.append(Res(s, VBool(bb)))
         return out
+    if isinstance(oa, (CSet, LSet)) and isinstance(ob, (CSet, LSet)):
+        if isinstance(oa, CSet) and isinstance(ob, CSet):
+            return [Res(st, VBool(oa.items == ob.items))]
+
+        def memf(o):
+            if isinstance(o, LSet):
+                return o.member
+            items = list(o.items)
+            return lambda x: z3.Or([x == X.B.pykey_term(i) for i in items] or [z3.BoolVal(False)])
+
+        ma, mb = memf(oa), memf(ob)
+        k = z3.Const(f"eqk!{core.uid()}", core.Key)
+        bb = st.forall(k, z3.BoolVal(True), ma(k) == mb(k), equiv=True, name="set-eq")
+        return [Res(st, VBool(bb))]
     if isinstance(oa, (CDict, LDict)) and isinstance(ob, (CDict, LDict)):
         if isinstance(oa, CDict):
             oa = X.B.cdict_to_ldict(st, oa)
